@@ -21,8 +21,8 @@ import (
 
 type c12SendCase struct {
 	N        int    `json:"frames_queued"`
-	FailFrom int    `json:"writes_fail_from"` // 0-based index of the first failing write; -1 never
-	Errno    string `json:"write_failure"`    // enobufs | eagain | eintr | eperm | plain
+	FailFrom int    `json:"writes_fail_from"`    // 0-based index of the first failing write; -1 never
+	Errno    string `json:"write_failure"`       // enobufs | eagain | eintr | eperm | plain
 	CancelAt int    `json:"cancel_inside_write"` // the context is cancelled inside this write call (0-based); -1 never
 	SlowErrs bool   `json:"error_reader_slow"`
 }
